@@ -776,6 +776,50 @@ func gen(r *vlib.R, n int, tier string, emit func(string)) {
 			}
 		}
 	}
+	// state that is REMOVED before it expires: operator purge, capacity eviction of the oldest cut
+	emit("lad new r8198=1")
+	for _, rm := range []string{"purge", "flood", "purge", "flood"} {
+		for _, st := range []string{"ex=0 cut=1 fail=-", "ex=1 cut=1 fail=-", "ex=0 cut=1 fail=q", "ex=1 cut=0 fail=q", "ex=0 cut=0 fail=z"} {
+			if rm == "flood" && !strings.Contains(st, "cut=1") {
+				continue
+			}
+			emit(fmt.Sprintf("lad run %s cd=0 do=%d small=0 rm=%s nm=%s", st, r.Intn(2), rm, uniq(r, &k)))
+			budget--
+		}
+	}
+	// what reflex scores a request with
+	emit("rx new")
+	for i := 0; i < 30+n/400; i++ {
+		labels := []string{mixCase(r, "www"), "example", "test"}
+		p := genPacket(r, labels, vlib.Pick(r, []uint16{16, 48, 46, 255, 1}), 1, r.Chance(1, 5))
+		emit("rx facts pkt=" + vlib.Hex(p.b))
+	}
+	// the engines' header-level verdicts over real sockets (UDP reader's inline pass included)
+	emit("sock new")
+	for i := 0; i < 24; i++ {
+		fl := 0x0100 | r.Intn(16)<<11 // every opcode
+		switch r.Intn(6) {
+		case 0:
+			fl |= 0x8000 // a response: ignored
+		case 1:
+			fl = 0x0100
+		}
+		qd, an, ns, ar := 1, 0, 0, 0
+		switch r.Intn(8) {
+		case 0:
+			qd = vlib.Pick(r, []int{0, 2})
+		case 1:
+			an = vlib.Pick(r, []int{1, 2})
+		case 2:
+			ns = 2
+		case 3:
+			ar = vlib.Pick(r, []int{2, 3})
+		}
+		b := []byte{byte(r.Intn(256)), byte(r.Intn(256)), byte(fl >> 8), byte(fl), 0, byte(qd), 0, byte(an), 0, byte(ns), 0, byte(ar)}
+		b = append(b, wireName([]string{"pos", fmt.Sprintf("sock%d", i), "zt"})...)
+		b = append(b, 0, 1, 0, 1)
+		emit("sock probe pkt=" + vlib.Hex(b))
+	}
 	// denial zones at the root and at a TLD (a root proof stays for the life of an instance: each gets its own)
 	for _, zd := range []int{0, 1, 0, 1} {
 		for _, fail := range []string{"q", "-"} {
